@@ -64,8 +64,19 @@ extern int mpt_queue_crop(MPT_STRUCT(queue) *queue, size_t pos, size_t len)
 	
 	/* move data over segments */
 	if (high) {
-		uint8_t *src = ((uint8_t *) queue->base) + len - low;
-		if (low <= post) {
+		uint8_t *src = queue->base;
+		/* keep remaining data of first part */
+		if (len < low) {
+			(void) memmove(base, base+len, low-len);
+			base += low-len;
+			post -= low-len;
+			low = len;
+		}
+		else {
+			src += len - low;
+		}
+		/* remaining data fits into first part */
+		if (post <= low) {
 			memcpy(base, src, post);
 			ret = 1;
 		}
@@ -73,9 +84,8 @@ extern int mpt_queue_crop(MPT_STRUCT(queue) *queue, size_t pos, size_t len)
 			/* limit moved data size */
 			memcpy(base, src, low);
 			post -= low;
-			base = queue->base;
-			/* start at offset 'low' in post data ((len - low) + low) */
-			(void) memmove(base, base+len, post);
+			/* move up remaining data in second part */
+			(void) memmove(queue->base, src+low, post);
 			ret = 3;
 		}
 	}
